@@ -16,6 +16,13 @@ CLAIMED = {
    note='Trusted: clang 14 AST/CFG, the extractor, std containers per the C++ standard. Not decided: alignment of level indices after removeError in the middle of the list (a history argument).',
    ref='DESIGN.md section 4, C15'),
 
+ 'C01': dict(
+   technique='static analysis: exception-channel screening, libxml2 acquire/release and use-after-release dataflow, call-graph SCC classification with visited-set dominance, CFG gate rules',
+   text='Necessary conditions of crash freedom on every path: std::sto*/.at()/std::string(const char*)/recognisers are screened or handled and there is no throw; libxml2 resources are released once on every exit and never read after release; '
+        'each of the 83 recursive call-graph cycles is classified by the step it takes and every step along a reference that input can make cyclic (units by name, imports, equivalences) is dominated by a visited/history test or sits behind a verified gate; '
+        'analyser, generator, parser and flattening entry gates dominate the code they protect; document roots and import-source models are tested before use. Absence of all undefined behaviour is not claimed.',
+   note='Trusted: clang AST/CFG/call graph, C++ exception specifications, libxml2 contracts named in the exemption reasons. Seven unguarded units-reference recursions are listed as known findings (replayed stack exhaustion on units a->b->a); three crash defects were repaired.',
+   ref='DESIGN.md section 4, C01'),
  'C08': dict(
    technique='static analysis: constant tables vs an independent SI oracle; symbolic normal forms (polynomials over roles) of the three unit reducers evaluated on a generic three-level chain and compared',
    text='(T) standardUnitsList/standardMultiplierList/standardPrefixList and the enum spellings are read from their initialisers and compared value by value with the SI definitions and with each other; '
